@@ -27,8 +27,20 @@ def grid(name: str) -> list[dict]:
         mod = importlib.import_module(f"vflib.grids.{name}")
     except ModuleNotFoundError:
         return []
+    except Exception as exc:  # pylint: disable=broad-exception-caught
+        import sys
+
+        print(f"WARNING: grid {name} failed to import: {type(exc).__name__}: {exc}", file=sys.stderr)
+        return []
     out = []
-    for i, g in enumerate(mod.programs()):
+    try:
+        progs = list(mod.programs())
+    except Exception as exc:  # pylint: disable=broad-exception-caught
+        import sys
+
+        print(f"WARNING: grid {name} failed to enumerate: {type(exc).__name__}: {exc}", file=sys.stderr)
+        return []
+    for i, g in enumerate(progs):
         g = dict(g)
         g.setdefault("id", f"grid.{name}.{i}")
         g.setdefault("tag", name)
